@@ -53,6 +53,7 @@ Q_PAR2 = rq(params="v=2")
 Q_PORT = rq(port=8080)
 Q_F7 = rq(method="POST", ftype="urlencoded", form=(("a", "1"), ("n", "7")))
 Q_F8 = rq(method="POST", ftype="urlencoded", form=(("a", "1"), ("n", "8")))
+Q_FA2 = rq(method="POST", ftype="urlencoded", form=(("a", "2"), ("n", "7")))
 Q_H1 = rq(hdrs=(("x-a", "1"),))
 Q_H2 = rq(hdrs=(("x-a", "2"),))
 Q_OTHER = rq(path="/other")
@@ -63,7 +64,6 @@ Q_M7 = rq(method="POST", ftype="multipart", form=(("a", "1"), ("n", "7")))
 Q_M8 = rq(method="POST", ftype="multipart", form=(("a", "1"), ("n", "8")))
 Q_X2 = rq(query=(("x", "2"), ("t", "5")))
 Q_PUT = rq(method="PUT")
-Q_FA2 = rq(method="POST", ftype="urlencoded", form=(("a", "2"), ("n", "7")))
 TCP = rec(Q_BASE, hasresp=False, http=False)
 
 BATCH_QUICK = [
@@ -72,7 +72,7 @@ BATCH_QUICK = [
     [rec(Q_PAR1), rec(Q_PORT), TCP],
     [rec(Q_F7), rec(Q_F8), rec(Q_H1)],
 ]
-REQ_QUICK = [Q_BASE, Q_HOST, Q_T6, Q_PAR2, Q_F8, Q_H2, Q_OTHER]
+REQ_QUICK = [Q_BASE, Q_HOST, Q_T6, Q_PAR2, Q_F8, Q_H2, Q_FA2]
 OPT_QUICK = [("ih", True), ("iparams", ("t",)), ("ipay", ("n",)), ("uh", ("x-a",)), ("reuse", True), ("extra", "kill"),
              ("extra", "404")]
 INIT_QUICK = [opts(), opts(reuse=True, ip=True), opts(killx=True, ih=True)]
@@ -84,7 +84,7 @@ BATCH_FULL = BATCH_QUICK + [
     [rec(Q_HOST), rec(Q_PORT), rec(Q_BASE), rec(Q_HOST), rec(Q_PORT)],
     [rec(Q_BASE), rec(Q_BASE), rec(Q_HOST), rec(Q_BASE)],
 ]
-REQ_FULL = REQ_QUICK + [Q_PORT, Q_F7, Q_H1, Q_PAR1, Q_HTTPS, Q_RAW1, Q_RAW2, Q_M8, Q_X2, Q_PUT, Q_FA2]
+REQ_FULL = REQ_QUICK + [Q_PORT, Q_F7, Q_H1, Q_PAR1, Q_HTTPS, Q_RAW1, Q_RAW2, Q_M8, Q_X2, Q_PUT, Q_OTHER]
 OPT_FULL = OPT_QUICK + [("ih", False), ("ip", True), ("ic", True), ("ic", False), ("iparams", ("t", "x")), ("iparams", ()),
                         ("ipay", ()), ("uh", ()), ("reuse", False), ("extra", "forward"), ("extra", "500"), ("killx", True)]
 INIT_FULL = INIT_QUICK + [opts(ic=True), opts(iparams=("t",), ipay=("n",), uh=("x-a",), extra="204")]
@@ -243,14 +243,14 @@ class Check(core.PropertyCheck):
     def scenarios(self, ctx, models):
         rng = random.Random(ctx.seed + 52)
         g = models[0].graph
-        behs = _edge_cover_sample(g, rng, 8, 3, 1800 if ctx.quick else None)
+        behs = _edge_cover_sample(g, rng, 8, 3, 1500 if ctx.quick else None)
         ctx.notes["edge_cover_paths_replayed"] = len(behs)
         for b in behs:
             yield core.Scenario(self._from_behaviour(b, "small", rng), predicted=core.predicted_events(b), source="model")
-        sims, _ = ctx.simulate(self.MODEL, self._consts("full"), num=400 if ctx.quick else 12000, depth=8, timeout=1500)
+        sims, _ = ctx.simulate(self.MODEL, self._consts("full"), num=250 if ctx.quick else 8000, depth=8, timeout=1500)
         for b in sims:
             yield core.Scenario(self._from_behaviour(b, "full", rng), predicted=core.predicted_events(b), source="simulate")
-        for i in range(300 if ctx.quick else 5000):
+        for i in range(300 if ctx.quick else 3500):
             yield core.Scenario(self._random(rng), source="random")
 
     # seeded random driver: longer histories, several options per update, file loading, more near-colliding requests
